@@ -9,11 +9,13 @@ VARIABLES cfg, out
 
 MaxBnd == IF TIER = "quick" THEN 3 ELSE 4
 SeedSizes == IF TIER = "quick" THEN {1} ELSE {1, 2, 3}
-\* network variants <<slack, gens, spur>>
-Variants == IF TIER = "quick" THEN {<<0, FALSE, TRUE>>, <<0, TRUE, TRUE>>, <<5, TRUE, TRUE>>}
-            ELSE {<<0, FALSE, TRUE>>, <<0, TRUE, TRUE>>, <<5, FALSE, TRUE>>, <<5, TRUE, TRUE>>, <<0, TRUE, FALSE>>}
+\* network variants <<slack, gens, spur, ghost>>   (ghost: the PV units exist but are out of service, with set points that
+\* differ from the solved voltages - they must not influence anything)
+Variants == IF TIER = "quick" THEN {<<0, FALSE, TRUE, FALSE>>, <<0, TRUE, TRUE, FALSE>>, <<5, TRUE, TRUE, FALSE>>, <<0, FALSE, TRUE, TRUE>>}
+            ELSE {<<0, FALSE, TRUE, FALSE>>, <<0, TRUE, TRUE, FALSE>>, <<5, FALSE, TRUE, FALSE>>, <<5, TRUE, TRUE, FALSE>>, <<0, TRUE, FALSE, FALSE>>,
+                  <<0, FALSE, TRUE, TRUE>>, <<5, FALSE, TRUE, TRUE>>}
 Configs ==
-  { c \in { [bnd |-> B, seed |-> S, eq |-> e, slack |-> v[1], gens |-> v[2], spur |-> v[3]] :
+  { c \in { [bnd |-> B, seed |-> S, eq |-> e, slack |-> v[1], gens |-> v[2], spur |-> v[3], ghost |-> v[4]] :
               B \in {B \in SUBSET Bus : Cardinality(B) \in 1..MaxBnd}, S \in {S \in SUBSET Bus : Cardinality(S) \in SeedSizes},
               e \in {"ward", "xward", "rei"}, v \in Variants } : WellFormed(c) }
 
